@@ -38,6 +38,8 @@ type treeCase struct {
 	Argv    []string   `json:"argv"`
 	// Prerun: argument vectors run first on the SAME application object (outcome ignored); the observed run is the last one
 	Prerun  [][]string `json:"prerun"`
+	// PreSpec: the application's spec string during the earlier runs (nil: the same as for the observed run)
+	PreSpec *string `json:"prespec"`
 }
 
 type treeResult struct {
@@ -200,6 +202,9 @@ func runTree(c treeCase) (r treeResult) {
 		}
 	}
 	build(app.Cmd, 0)
+	if c.PreSpec != nil && len(c.Prerun) > 0 {
+		app.Spec = *c.PreSpec
+	}
 	for _, pre := range c.Prerun {
 		func() {
 			defer func() { recover() }()
@@ -207,6 +212,9 @@ func runTree(c treeCase) (r treeResult) {
 		}()
 		r.Log, r.Exits = []string{}, []int{}
 		errBuf.Reset()
+	}
+	if c.PreSpec != nil && len(c.Prerun) > 0 {
+		app.Spec = c.Nodes[0].Spec
 	}
 	for _, si := range c.Nodes[0].Subs {
 		si := si
